@@ -44,7 +44,7 @@ Section Bridge.
     c_types c = derived_types ->
     NoDup (map fst (support_selection (c_omit c) (c_sersup c) (c_typesup c))) ->
     (forall p, In p (map fst (support_selection (c_omit c) (c_sersup c) (c_typesup c))) -> ~ In p (c_types c)) ->
-    c_dryrun c = false -> c_allow c = false -> no_external (c_filepps c) = true -> compatible e c c -> links_clear e c ->
+    c_dryrun c = false -> c_allow c = false -> no_external (c_filepps c) = true -> compatible e c c -> targets_plain e c ->
     (forall p, In p (targets c) -> ready e s p = true) ->
     (snd (step render e s c) = Ok <-> forall p, In p (targets c) -> s p = None).
   Proof.
@@ -56,7 +56,7 @@ Section Bridge.
     c_types c = derived_types ->
     NoDup (map fst (support_selection (c_omit c) (c_sersup c) (c_typesup c))) ->
     (forall p, In p (map fst (support_selection (c_omit c) (c_sersup c) (c_typesup c))) -> ~ In p (c_types c)) ->
-    c_dryrun c = false -> c_allow c = false -> no_external (c_filepps c) = true -> compatible e c c -> links_clear e c ->
+    c_dryrun c = false -> c_allow c = false -> no_external (c_filepps c) = true -> compatible e c c -> targets_plain e c ->
     (forall p, In p (targets c) -> ready e s p = true) ->
     (snd (step render e s c) = Err EExists <-> exists p, In p (targets c) /\ s p <> None).
   Proof.
